@@ -223,6 +223,49 @@ func (c *checker) present(f *fixture, t tokset, slot, family, detail, path strin
 	}
 }
 
+// cancelProbe: the cancel continuation goes through the same token checks;
+// an altered token on a cancel must be refused and OnCancel must not run.
+func (c *checker) cancelProbe(f *fixture, t tokset, rng *rand.Rand, n int) {
+	for k := 0; k < n; k++ {
+		cur, call := append([]byte(nil), t.Cursor...), append([]byte(nil), t.Call...)
+		slot := "cursor"
+		target := &cur
+		if k%3 == 2 {
+			slot, target = "call", &call
+		}
+		switch k % 4 {
+		case 0, 1:
+			i := rng.IntN(len(*target) - 4) // keep clear of the last quantum (other-spelling region)
+			(*target)[i] ^= 1 << rng.IntN(6)
+		case 2:
+			*target = (*target)[:rng.IntN(len(*target))]
+		default:
+			raw := decode(*target)
+			raw[1+rng.IntN(len(raw)-1)] ^= 0x40
+			*target = reencode(raw)
+		}
+		if bytes.Equal(cur, t.Cursor) && bytes.Equal(call, t.Call) {
+			continue
+		}
+		for _, in := range []*we.Instance{f.hit, f.miss} {
+			if slot == "call" && in == f.hit {
+				continue // not consulted on a hit
+			}
+			cont := we.ContFor(t.M, t.ID, cur, call, 0)
+			cont.Cancel = true
+			obs := in.Continue(cont)
+			c.r.Case("cancel|" + t.Name + "|" + slot + "|" + in.Name + "|" + mon.Hash(string(cur), string(call)))
+			c.count("cancel-altered/" + slot + "/" + in.Name)
+			if obs.Panic != "" || obs.Accepted() || !obs.Refused4xx() || len(obs.UserEvents()) > 0 {
+				c.r.Violation("accepted:"+slot+":cancel-continuation", fmt.Sprintf("cancel continuation with an altered %s token was not cleanly refused: %s panic=%q events=%s", slot, obs.Refusal(), obs.Panic, obs.EventKinds()),
+					map[string]any{"token_set": t.Name, "slot": slot, "cursor": string(cur), "call": string(call), "obs": obs})
+			} else {
+				c.r.Class("cancel-altered:refused")
+			}
+		}
+	}
+}
+
 func flipBit(b []byte, i, bit int) []byte {
 	out := append([]byte(nil), b...)
 	out[i] ^= 1 << bit
@@ -450,7 +493,7 @@ func main() {
 	r.Require("control-accepted:hit", "control-accepted:miss", "refused:hit", "refused:miss",
 		"cursor-pad:0", "cursor-pad:1", "cursor-pad:2",
 		"class:bad-signature", "class:malformed-base64", "class:too-short", "class:other-version",
-		"foreign-key-refused", "call-altered-on-hit:not-consulted")
+		"foreign-key-refused", "call-altered-on-hit:not-consulted", "cancel-altered:refused")
 	r.Assume("'altered' = presented text differs from the minted text byte-for-byte; the structural classes (malformed / too short / other version / bad signature / same bytes other spelling) are computed by the harness with encoding/base64, not by the library")
 	r.Assume("sequential in-process requests: service events between request start and return belong to that request")
 	r.Assume("a 32-byte key equal to SHA-256 of a non-32-byte key IS the same AEAD key by construction of normalizeTokenKey; such aliases are counted (foreign_key.sha256_alias_accepted) and treated as the same key, not as a foreign key")
@@ -540,6 +583,7 @@ func main() {
 			// plus one more stream of the same identity+method for other-call pairs
 			others = append(others, f.mintOn(r, sel, t, i))
 			ck.remainder(f, t, others, r.Rand(uint64(i), 7), r.N(6, 0), r.Thorough() && i < 6)
+			ck.cancelProbe(f, t, r.Rand(uint64(i), 8), 120)
 		}(i, t)
 	}
 	wg.Wait()
